@@ -1,5 +1,7 @@
 import MdsVerif.Proofs.MdiffApply
+import MdsVerif.Proofs.MdiffNormalRT
 import MdsVerif.Props.C13
+import MdsVerif.Props.C14
 /-!
 # C14 (apply) — every rendering of a diff, applied to `Left` by the published rules, gives `Right`
 
@@ -346,6 +348,61 @@ example :
     unified exPipe none = [str "@@ -1,6 +1,7 @@", str " a", str "-b", str "+X", str " c", str " d",
       str "-e", str "+Y", str "+Z", str " f"] ∧
     DiffApply.applyUnified (unified exPipe (some exFi)) exL = some exR := by decide
+
+/-! ## round trip ∘ pipeline: the normal rendering parses back to chunks that describe the same patch -/
+
+/-- **normal_readback_chunks.**  For every chunk list that is `AllOK`, `Aligned`, made of `EditOK`
+edits with newline-free lines: `Read` applied to the bytes written by `Normal` succeeds, and the
+chunks it returns (`Props.C14.normal_roundtrip`: one per change command) are again `AllOK` for
+`L`, `R`, aligned, and `patch L` of them is `R` — what is parsed back describes the same change at
+the line ranges of the individual commands. -/
+theorem normal_readback_chunks (cs : List (Chunk Line)) (L R : List Line) (hok : AllOK cs L R)
+    (hal : Aligned L R 1 1 cs) (hed : ∀ c ∈ cs, ∀ e ∈ c.edits, EditOK e)
+    (hnl : ∀ c ∈ cs, EditsNoNl c.edits) :
+    ∃ p, read (readLines (render (normal cs))) = some p ∧ AllOK p.chunks L R ∧
+      Aligned L R 1 1 p.chunks ∧ Mdiff.patch L p.chunks = R := by
+  have h := (C14.normal_roundtrip cs (fun c hc => ⟨hed c hc, (hok c hc).l1, (hok c hc).r1⟩) hnl).1
+  obtain ⟨k1, k2⟩ := MdsVerif.Proofs.MdiffNormalRT.normalChunks_ok cs 1 1 (Nat.le_refl _) (Nat.le_refl _) hok hal
+  exact ⟨_, h, k1, k2, patch_of_aligned k1 k2⟩
+
+/-- **normal_readback_new.**  For `New(L, R)` with newline-free lines: the normal rendering parses
+back (`Read`) to chunks that are `AllOK` for `L`, `R` and patch `L` into `R` (`hvalid`, `hcanon`: C11). -/
+theorem normal_readback_new (L R : List Line) (hvalid : EditScript.Valid (editScript L R) L R)
+    (hcanon : EditScript.Canonical (editScript L R)) (hL : ∀ l ∈ L, NoNl l) (hR : ∀ l ∈ R, NoNl l) :
+    ∃ p, read (readLines (render (normal (Model.Mdiff.new L R).chunks))) = some p ∧
+      AllOK p.chunks L R ∧ Mdiff.patch L p.chunks = R := by
+  have r := C13.newChunks_ok (editScript L R) L R hvalid
+  have g := newChunks_good L R hvalid hcanon
+  obtain ⟨p, h1, h2, _, h4⟩ := normal_readback_chunks (newChunks (editScript L R)) L R r.1
+    (C13.newChunks_aligned _ L R hvalid) (fun c hc => (g c hc).1)
+    (fun c hc => MdsVerif.Proofs.MdiffNormalRT.editsNoNl_of_ok (r.1 c hc) (g c hc).1 (r.2.2.2.2.1 c hc) hL hR)
+  exact ⟨p, h1, h2, h4⟩
+
+/-- **normal_readback_pipeline.**  The same for `New(L, R).AddContext(n).Unify()`, every `n`,
+provided the lines held by the unified chunks are newline-free (`hnl`; they are lines of `L` and
+`R` — context lines are copied from `Left` — but that is not proved here: `EditsNoNl` also speaks
+about the unused `Y` field of Emit edits). -/
+theorem normal_readback_pipeline (L R : List Line) (n : Nat)
+    (hvalid : EditScript.Valid (editScript L R) L R) (hcanon : EditScript.Canonical (editScript L R)) :
+    ∃ d1 d2, (Model.Mdiff.new L R).addContext? n = some d1 ∧ d1.unify? = .ok d2 ∧
+      ((∀ c ∈ d2.chunks, EditsNoNl c.edits) →
+        ∃ p, read (readLines (render (normal d2.chunks))) = some p ∧
+          AllOK p.chunks L R ∧ Mdiff.patch L p.chunks = R) := by
+  obtain ⟨d1, d2, h1, h2, hok, hal, hed, _⟩ := pipeline_chunks L R n hvalid hcanon
+  refine ⟨d1, d2, h1, h2, fun hnl => ?_⟩
+  obtain ⟨p, k1, k2, _, k4⟩ := normal_readback_chunks d2.chunks L R hok hal hed hnl
+  exact ⟨p, k1, k2, k4⟩
+
+set_option maxRecDepth 8000 in
+/-- non-vacuity: the merged chunk of the running example (`n = 1`: five edits, three of them Emits)
+is newline-free, and `Read(Normal(·))` returns the two change commands as two chunks that patch
+`exL` into `exR` -/
+example :
+    (exPipe.all fun c => c.edits.all fun e => (e.X ++ e.Y).all fun l => !l.contains '\n') = true ∧
+    (read (readLines (render (normal exPipe)))).map (fun p => (p.chunks.map fun c =>
+        (c.lstart, c.lend, c.rstart, c.rend), decide (AllOK p.chunks exL exR),
+        decide (Mdiff.patch exL p.chunks = exR)))
+      = some ([(2, 3, 2, 3), (5, 6, 5, 7)], true, true) := by decide
 
 /-! ## full-strength statements that are NOT theorems of the code as it is (F6)
 
